@@ -124,6 +124,7 @@ def limCase (table conn l r fl fr fo limit : String) (obs : List String) (tag : 
       tags := [tag, if limited == "none" then "none" else if limited == "panic" then "panic" else "some",
         if lim == usz then "lim=size" else if lim + 1 == usz then "lim=size-1" else if lim == 0 then "lim=0" else "lim-other",
         if usz == 0 then "res-panic" else if usz == 1 then "res-false" else if usz == 2 then "res-true" else "res-nonconst"] ++
+        (if lim ≥ 65535 then [if lim ≥ 2 ^ 32 then "lim>=2^32" else "lim>=2^16-1"] else []) ++
         (if L.size > 65536 || R.size > 65536 then ["big-operand"] else []) }
   | _, _, _, _, _, _, _, _ => Verdict.bad "args"
 
@@ -154,6 +155,7 @@ def dryCase (table conn l r fl fr fo limit : String) (obs : List String) (tag : 
       tags := [tag, if dry == "none" then "none" else if dry == "panic" then "panic" else "some",
         if lim == cnt then "lim=count" else if lim + 1 == cnt then "lim=count-1" else "lim-other",
         if cnt > ((parseArr? unres).map decisionNodes |>.getD 0) then "count>nodes" else "count=nodes"] ++
+        (if lim ≥ 65535 then [if lim ≥ 2 ^ 32 then "lim>=2^32" else "lim>=2^16-1"] else []) ++
         (if L.size > 65536 || R.size > 65536 then ["big-operand"] else []) }
   | _, _, _, _, _, _, _, _ => Verdict.bad "args"
 
@@ -180,7 +182,7 @@ def showOrd : Option Ordering → String
   | some .gt => "greater"
   | none => "none"
 
-def handle (key : String) (ins obs : List String) : Verdict :=
+def handleBase (key : String) (ins obs : List String) : Verdict :=
   match key, ins with
   | "C05.lim", [table, conn, l, r, fl, fr, fo, limit] => limCase table conn l r fl fr fo limit obs "lim"
   | "C05.blim", [table, conn, l, r, limit] => limCase table conn l r "-" "-" "-" limit obs "blim"
@@ -207,5 +209,24 @@ def handle (key : String) (ins obs : List String) : Verdict :=
           (if A.size > 65536 || B.size > 65536 then ["big-operand"] else []) }
     | _, _, _ => Verdict.bad "args"
   | _, _ => Verdict.bad ("key " ++ key)
+
+/-- Aliasing cases: the same function as both operands, passed by the harness either as the SAME object (`alias`)
+    or as equal clones (`clone`). Values have no identity in the model and in the property: both modes are judged
+    like the plain case with the operand repeated (plain entry points when all flips are absent). -/
+def handle (key : String) (ins obs : List String) : Verdict :=
+  match key, ins with
+  | "C05.limA", [mode, table, conn, a, fl, fr, fo, limit] =>
+    if mode != "alias" && mode != "clone" then Verdict.bad "mode" else
+    let v := limCase table conn a a fl fr fo limit obs "limA"
+    { v with tags := v.tags ++ [mode] }
+  | "C05.dryA", [mode, table, conn, a, fl, fr, fo, limit] =>
+    if mode != "alias" && mode != "clone" then Verdict.bad "mode" else
+    let v := dryCase table conn a a fl fr fo limit obs "dryA"
+    { v with tags := v.tags ++ [mode] }
+  | "C05.cmpA", [mode, a] =>
+    if mode != "alias" && mode != "clone" then Verdict.bad "mode" else
+    let v := handleBase "C05.cmp" [a, a] obs
+    { v with tags := v.tags ++ [mode] }
+  | _, _ => handleBase key ins obs
 
 end B.Drive.C05
